@@ -113,6 +113,19 @@ CLAIMED = {
          "dimensions are refused by transform / find_bin / fill / fill_n."),
    note=BASE_NOTE + "numpy hypot / arctan2 / cos / sin are trusted numerics (the check is of physt's use of them); points exactly on "
         "inner bin edges are not generated on purpose (edges are random doubles), the last-edge convention is the binning's."),
+ "C16": dict(
+   technique="Coq proofs of measure additivity / telescoping / product totals / closed forms for an arbitrary cosine function, density and running-sum identities + extracted measure model compared with every geometry attribute of physt",
+   text=("Theorems: for every axis kind the measure of merged adjacent bins is the sum of their measures, consecutive bins "
+         "telescope to the measure of the covered interval, the total of a product measure is the product of the per-axis totals, "
+         "full angular ranges give pi R^2, 4 pi, 4/3 pi R^3, pi R^2 H; d = f/s gives d*s = f; the running sum ends at the total. "
+         "For every generated histogram of every class the extracted model recomputes bin_sizes from the bins (exact rationals, "
+         "numpy's pi and cosines of the theta edges) and demands agreement (1e-12 relative) with h.bin_sizes, densities * bin_sizes "
+         "= frequencies, left / right / centre / width arrays and their mesh forms, edges (also of a sub-histogram sliced after "
+         "the edges were cached), total_size / total_width / total, cumulative_frequencies, closed forms for full ranges, and "
+         "bin_sizes after merging adjacent bins along every axis."),
+   note=BASE_NOTE + "pi and cos are numbers supplied by numpy with each observation (the theorems hold for any function with "
+        "cos 0 = 1, cos pi = -1); RadialHistogram's measure is pi (r2^2 - r1^2) for 2-D and 3-D sources alike, as the property "
+        "states; AzimuthalHistogram / CylindricalSurfaceHistogram ignore their radius in bin_sizes, as the property states."),
  "C19": dict(
    technique="Coq proofs over a per-context binding + token-stack model (restoration for every balanced body and on raise, isolation by induction over schedules, spawn snapshot) + extracted-model correspondence under forced interleavings of real threads / asyncio tasks",
    text=("Theorems: enter/exit restores the previous value and nesting for EVERY balanced body (nested blocks, assignments inside, "
